@@ -1,5 +1,6 @@
 /-
   Proofs.PyLoops — generic facts about the loop combinators of Spec/PyLoops.lean (proved once, used by every loop bridge):
+    forEnum_eq_iter, pyIndex_ok          : the same for `for i, x in enumerate(l)`; `l[i]` inside the range
     forRange_eq_iter / whileFuel_eq_iter : a loop whose test and body are pure functions is the pure iteration; a while loop whose
                                            measure fits in the fuel never reports "OutOfFuel"
     iterWhile_fuel_irrelevant            : once the measure fits, more fuel changes nothing
@@ -26,6 +27,23 @@ theorem forRange_eq_iter {σ : Type} (body : Int → σ → Except String σ) (b
   induction n generalizing i s with
   | zero => rfl
   | succ k ih => simp only [forRange, iterRange, hb, bind, Except.bind, ih]
+
+/-- an `enumerate` loop whose body is a pure step function on the indices it visits is the pure iteration -/
+theorem forEnum_eq_iter {σ τ : Type} (body : Int → τ → σ → Except String σ) (b : Int → τ → σ → σ) (l : List τ) (i : Int) (s : σ)
+    (hb : ∀ (k : Int) (x : τ) (s' : σ), i ≤ k → k < i + l.length → body k x s' = .ok (b k x s')) :
+    forEnum body l i s = .ok (iterEnum b l i s) := by
+  induction l generalizing i s with
+  | nil => rfl
+  | cons x rest ih =>
+    have h0 := hb i x s (Int.le_refl i) (by simp only [List.length_cons]; omega)
+    simp only [forEnum, iterEnum, h0, bind, Except.bind]
+    exact ih (i + 1) (b i x s) (fun k y s' h1 h2 => hb k y s' (by omega) (by simp only [List.length_cons]; omega))
+
+/-- `l[i]` for an index in range -/
+theorem pyIndex_ok {τ : Type} (l : List τ) (i : Int) (v : τ) (h0 : 0 ≤ i) (h : l[i.toNat]? = some v) : pyIndex l i = .ok v := by
+  have h1 : ¬ i < 0 := by omega
+  simp only [pyIndex, h1, if_false, h]
+  rfl
 
 /-- a `while` loop whose test and body are pure functions on the states satisfying an invariant, and whose measure fits in the
     fuel, ends normally (no "OutOfFuel") in the state of the pure iteration -/
